@@ -72,7 +72,7 @@ def _c18_reg():
         ),
         lambda: [c18.C18()],
         nontrivial_fn=c18.nontrivial,
-        world_kw={"bw_bias": 0.75},
+        world_kw={"bw_bias": 0.75, "call_style_p": 0.3},
         runs={"quick": 4000, "thorough": 100000},
         assumptions=["strict=True: identical timeline (slot times, pulses, EOM blocks) and phase references, which implies identical samples", "strict=False: the result is judged against the NEW device's channels with C01's and C02's intrinsic invariants"],
         expected_probes=["timing_relevant_switch", "strict_switch_accepted_with_timing_change", "nonstrict_switch_changed_timeline", "register_switched"],
@@ -237,7 +237,7 @@ def _build():
         ),
         lambda: [c09.C09(), c09.Twin(), c09.Relabel(c03.C03(), "C09/live-", only=("C03/not-minimal", "C03/conflict", "C03/barrier"))],
         nontrivial_fn=c09.nontrivial,
-        world_kw={"bw_bias": 0.75, "int_ids_p": 0.1},
+        world_kw={"bw_bias": 0.75, "int_ids_p": 0.1, "call_style_p": 0.3},
         enumerated=True,
         runs={"quick": 500, "thorough": 12000},
         assumptions=["fault positions and the catalogue are enumerated completely per base history; base histories are sampled", "state comparison covers timeline, phase references and shift times, EOM blocks, mode flags (incl. parametrized), declared/available channels and the canonical call log"],
@@ -362,7 +362,7 @@ def _build():
         ),
         lambda: [c04.C04(), c09.Relabel(c03.C03(), "C04/continued-sched-", only=("C03/not-minimal", "C03/conflict", "C03/barrier")), c09.Relabel(c07.C07(), "C04/continued-phase-", only=("C07/reference", "C07/pulse-phase", "C07/shift-time", "C07/barrier"))],
         nontrivial_fn=c04.nontrivial,
-        world_kw={"xy_p": 0.25, "int_ids_p": 0.15},
+        world_kw={"xy_p": 0.25, "int_ids_p": 0.15, "call_style_p": 0.3},
         runs={"quick": 3000, "thorough": 60000},
         assumptions=["legacy JSON is only claimed for built-in and virtual devices (custom physical Device classes are documented as unsupported)", "set-valued targets are compared as sets (hash order)"],
         expected_probes=["restart_abstract", "restart_legacy", "schema_validated", "roundtrip_integer_ids"],
